@@ -86,6 +86,7 @@ var expected = map[string][]*regexp.Regexp{
 	"placeholderRepeatedApart":        {class(validate.PathParamNotUniqueError)},
 	"pathParamNotRequired":            {class(validate.PathParamRequiredError)},
 	"dupParamInline":                  {class(validate.DuplicateParamNameError)},
+	"dupParamPathLevel":               {class(validate.DuplicateParamNameError)},
 	"dupParamViaShared":               {class(validate.DuplicateParamNameError)},
 	"twoBodyParams":                   {class(validate.MultipleBodyParamError)},
 	"bodyAndForm":                     {class(validate.BothFormDataAndBodyError)},
